@@ -25,7 +25,7 @@ func init() {
 			"gaps round 2: (8) every BeginReadOnlyTx of the Transactional family opens a read-only transaction (wrappers ask the wrapped backend for one and never call BeginTx, leaves build the transaction with the refusing value of its write flag); " +
 			"(9) an accepted Put/Delete of a leaf sets the 'written' flag its Commit consults; (10) an in-memory transaction works on a private copy of the parent tree taken under the parent's lock and the tree pointer has three tabled writers; " +
 			"(4+) the in-memory transaction's own List records its observation; (2+) a kept list verification entry of the raft transaction is replaced (and the old one dropped) only when the new replay window is wider; " +
-			"(7+) node-local trim bounds and the bound applyLog ships are min(lowest active start, state machine index), a writable raft transaction is registered with the tracker before it is handed out, registration increments / completion decrements the per-index count and the index is forgotten only with its last transaction, trimming removes exactly the entries below the bound; " +
+			"(7+) node-local trim bounds and the bound applyLog ships are min(lowest active start, state machine index), a writable raft transaction is registered with the tracker before it is handed out, registration increments / completion decrements the per-index count and the index is forgotten only with its last transaction, trimming removes exactly the entries below the bound, and the committing transaction's own start index is left out of the shipped bound only if no sibling is open at it (rule shared with C09.3); " +
 			"(5+) the LRU and lock table of a cache are set by its constructor alone.",
 		NotDecided: "serializability over interleavings (schedules); soundness of the raft fast path as index arithmetic beyond the stated predicates; what PostgreSQL implements under the isolation level requested (delegated to the database; only the level requested is checked); the gRPC storage client/server pair (out-of-process).",
 		Run:        runC08,
